@@ -157,6 +157,14 @@ func (w *govWorld) badPayload() (*shmsg.Message, string) {
 		l := pool[:c.Range(1, len(pool), "dup-list-distinct")]
 		l = append([][]byte{}, l...)
 		sort.Slice(l, func(i, j int) bool { return bytes.Compare(l[i], l[j]) < 0 })
+		if len(l) >= 3 && c.Chance(250, "two-addresses-repeated") {
+			// two different addresses repeated, mirrored: x y z y x
+			out := append([][]byte{}, l...)
+			for i := len(l) - 2; i >= 0; i-- {
+				out = append(out, l[i])
+			}
+			return out
+		}
 		which := c.Intn(len(l), "dup-which-rank")
 		if c.Bool("duplicate-not-adjacent") && len(l) >= 2 {
 			// move the chosen one to the front and append its copy at the end
